@@ -430,6 +430,14 @@ def gen_T07():
     logs += log_entries(3, inner_bodies['ADDMSG'], 'feedMsg addMsg handler', (), fmt_re)
     logs += log_entries(4, inner_bodies['INFILTER'], 'feedMsg inFilter handler', (), fmt_re)
     logs += log_entries(5, inner_bodies['CALLBACK'], 'feedMsg callback handler', (), fmt_re)
+    # Irc.reset (reconnect path, reduced to connected:=False in the model): every callback.reset() is under its own guard
+    rs = find_def(ti, 'reset', 'Irc')
+    ch = enclosing_tries(rs, lambda n: is_call(n, 'callback.reset'))
+    need(len(ch) == 1 and len(ch[0]) == 1, 'Irc.reset: callback.reset() is no longer under exactly one try')
+    rh = ch[0][0].handlers
+    need(len(rh) == 1 and set(classes(rh[0], 'Irc.reset')) <= {'CException', 'CBare'}, 'Irc.reset: the guard of callback.reset() no longer catches Exception')
+    swallowing(rh[0], 'Irc.reset guard')
+    logs += log_entries(7, rh[0].body, 'Irc.reset handler', (), fmt_re)
     for h in outer.handlers:     # the outer clauses of _read: pass / self._handleSocketError(e) only (bodies pinned above)
         need(not any(is_log_call(n) for n in ast.walk(h)), '_read: outer except clause now logs directly')
     if run_bodies:
